@@ -74,6 +74,7 @@ BUILTIN_STRUCTS = {
     'ManuallyDrop': (['T'], [('value', 'MaybeDangling<T>')]),
     'MaybeDangling': (['T'], [('0', 'T')]),
     'NeverShortCircuit': (['T'], [('0', 'T')]),
+    'NeverShortCircuitResidual': ([], []),      # uninhabited: no leaves
     'Range': (['T'], [('start', 'T'), ('end', 'T')]),
     'RangeInclusive': (['T'], [('start', 'T'), ('end', 'T'), ('exhausted', 'bool')]),
     'RangeTo': (['T'], [('end', 'T')]),
